@@ -375,6 +375,13 @@ class Report:
         self.cases.extend(cases)
         if not cases:
             return []
+        built = self.extra.setdefault('_built', [])
+        if module not in built:
+            ok, log = make([module.replace('.', '/') + '.vo'])
+            if not ok:
+                self.unchecked('correspondence:%s (checker does not build)' % module, log[-1500:])
+                return []
+            built.append(module)
         failing, errors = run_cases(self.pid, module, checker, cases, **kw)
         for e in errors:
             self.unchecked('correspondence:%s.%s' % (module, checker), e)
@@ -455,7 +462,7 @@ class Report:
             'rule': rule, 'samples': samples or ['(no correspondence cases)'],
             'input_distribution': dist,
         }
-        cov.update(self.extra)
+        cov.update({k: v for k, v in self.extra.items() if not k.startswith('_')})
         ev = {'property_id': self.pid, 'tier': self.tier, 'seed': self.seed, 'level': level, 'coverage': cov,
               'assumptions': assumptions or [], 'wall_s': round(time.time() - self.t0, 2),
               'violations': len(self.violations), 'known_findings_hit': self.known_hits, 'notes': self.notes[:20]}
